@@ -46,8 +46,10 @@ CLAIM = dict(
     "returned dofs only), aux_pressure_reshape, aux_distance_is_integral_of_density (value statements); nan_not_converged and "
     "aux_weighted_flux are definitional unfoldings. TIED BY CORRESPONDENCE: fault injection at nine program points of the real solvers "
     "(converged, number_iterations, distance tag, returned iterate vs the model on the reconstructed event sequence); the real "
-    "AndersonAcceleration on dyadic vectors with a stubbed lstsq vs the model (exact); __call__ outputs with a stubbed _solve vs "
-    "callOut (exact / 64 eps); generated program points and as-found witnesses through the driver. ORACLE per run: mass balance to "
+    "AndersonAcceleration on dyadic vectors with a stubbed lstsq vs the model (exact) and, with the real lstsq, every depth / restart, "
+    "the affine-constraint oracle over runs longer than the restart; __call__ outputs with a stubbed _solve vs "
+    "callOut (exact / 64 eps; the integration rule of CONSTANT_SUBCELL / CELL_PROJECTION is the model's own - corner mean / centre - "
+    "not read back from the code); generated program points and as-found witnesses through the driver. ORACLE per run: mass balance to "
     "linear-solver precision, distance == l1_dissipation(returned flux), aux outputs, pinned pressure, converged => criteria met (distance "
     "increments recomputed from the reported distances; Newton residual || rhs - J(x) x || and flux increment, Bregman mass residual "
     "recomputed from the iterates captured by pass-through wrappers of jacobian / l1_dissipation; only Bregman's aux/force increment is "
@@ -335,7 +337,7 @@ def build(d, cfg, num_iter=None):
         weight = d.Image(rng_np.uniform(0.5, 2.0, size=shape), space_dim=dim, dimensions=dims, scalar=True)
     opts = dict(
         return_info=True, num_iter=cfg.num_iter if num_iter is None else num_iter, formulation=cfg.formulation, linear_solver=cfg.solver,
-        l1_mode=getattr(W.L1Mode, cfg.l1), mobility_mode=getattr(W.MobilityMode, cfg.mobility), aa_depth=cfg.aa,
+        l1_mode=getattr(W.L1Mode, cfg.l1), mobility_mode=getattr(W.MobilityMode, cfg.mobility), aa_depth=cfg.aa, aa_restart=cfg.aa_restart,
         tol_residual=tols(cfg)[0], tol_increment=tols(cfg)[1], tol_distance=tols(cfg)[2],
         L=cfg.L,
     )
@@ -737,7 +739,7 @@ def explore(ctx, d, cfg, lines, impl):
         # propagates as an exception, which is honest and not what the property quantifies over)
         if fault is not None and (clean_passes is None or fault[1] >= clean_passes or injection(cfg, *fault) is None):
             continue
-        label = f"{cfg.method} {tuple(cfg.shape)} {cfg.masses} {cfg.formulation}/{cfg.solver} {cfg.l1}/{cfg.mobility} aa={cfg.aa} fault={fault}"
+        label = f"{cfg.method} {tuple(cfg.shape)} {cfg.masses} {cfg.formulation}/{cfg.solver} {cfg.l1}/{cfg.mobility} aa={cfg.aa}{'/r' + str(cfg.aa_restart) if cfg.aa_restart else ''} fault={fault}"
         cap = run_solver(d, cfg, fault)
         ctx.cov["solver_runs"] += 1
         ctx.count(("run", cfg.key(), fault), nontrivial=int(np.prod(cfg.shape)) > 1)
@@ -793,7 +795,8 @@ def configs(ctx):
         cfg = Config(
             shape=list(shape), voxel=[2.0 ** rng.randint(-2, 0) for _ in range(dim)], masses=["dense", "compact", "single"][(i // 3) % 3],
             method=method, l1=l1s[(i // 2) % 3], mobility=mobs[i % 5], formulation=pairs[(i * 2 + i // 5) % 5][0], solver=pairs[(i * 2 + i // 5) % 5][1],
-            aa=[0, 2][(i // 2) % 2], weighted=bool((i // 4) % 2), mseed=rng.randint(0, 10 ** 6),
+            aa=[0, 2][(i // 2) % 2], aa_restart=([None, 2, 3][(i // 4) % 3] if (i // 2) % 2 else None),
+            weighted=bool((i // 4) % 2), mseed=rng.randint(0, 10 ** 6),
             num_iter=[5, 4, 6, 3][i % 4], tol=[1e-14, float(np.finfo(float).max), 1e-3, 1e-6][(i // 3) % 4],
             tol_mode=["all", "distance", "residual", "increment"][(i // 2) % 4],
             # Newton: L is a cut-off of the mobility; Bregman: fixed penalty parameter (the Bregman operator is scaled by 1/L,
@@ -877,12 +880,22 @@ def aux_correspondence(ctx, d):
                 continue
             w._solve = lambda md, _x=x, _dd=stub_dist: (_dd, _x.copy(), {"converged": False, "number_iterations": 0, "convergence_history": {}})
             out = call(w, i1, i2)
+            # The integration rule of each L1 mode is part of the SPECIFICATION of the cost, not read back from the code where
+            # the mode itself fixes it: CONSTANT_SUBCELL_PROJECTION = mean over the 2^dim cell corners, CONSTANT_CELL_PROJECTION
+            # = value at the cell centre. RAVIART_THOMAS uses the Gauss rule of C15 (taken from the implementation; required
+            # to be a rule on the unit cell: nodes in [0,1]^dim, weights summing to 1).
             if l1 == "RAVIART_THOMAS":
                 pts, wq = d.quadrature.gauss_reference_cell(dim, "max")
+                pts = np.asarray(pts, dtype=float).reshape(len(wq), dim)
+                if abs(float(np.sum(wq)) - 1.0) > 8 * EPS * len(wq) or pts.min() < 0 or pts.max() > 1:
+                    ctx.fail(f"C04:transport_density:quadrature-rule-not-on-unit-cell:{l1}:dim={dim}",
+                             f"the quadrature rule behind L1Mode.{l1} in {dim}-D is not a rule on the unit cell (sum of weights "
+                             f"{float(np.sum(wq))!r})", {"kind": "aux", "cfg": dict(cfg), "x": []})
             elif l1 == "CONSTANT_SUBCELL_PROJECTION":
-                pts, wq = d.quadrature.reference_cell_corners(dim)
+                pts = np.array(list(np.ndindex(*([2] * dim))), dtype=float)
+                wq = np.full(2 ** dim, 0.5 ** dim)
             else:
-                pts, wq = d.quadrature.gauss_reference_cell(dim, 0)
+                pts, wq = np.full((1, dim), 0.5), np.array([1.0])
             pts = np.asarray(pts, dtype=float).reshape(len(wq), dim)
             cw = np.ravel(w.cell_weights, "F")
             line = (f"aux {dim} " + " ".join(map(str, shape)) + f" {dim} " + " ".join(fmt(v) for v in cfg.voxel) + f" {nc} " + " ".join(fmt(v) for v in cw)
@@ -989,6 +1002,30 @@ def anderson_correspondence(ctx, d):
                                                                 "calls": [[g.tolist(), f.tolist(), gm] for g, f, gm in calls]})
                 break
     ctx.correspond("AndersonAcceleration.__call__ (stubbed lstsq, dyadic) vs DarsiaModel.Anderson.call", lines, impl)
+    # property-level oracle with the REAL least-squares routine (anderson_run_preserves_balance): a linear constraint shared
+    # by all images must be kept by every returned iterate, for every depth / restart, over runs longer than the restart
+    for trial in range(ctx.pick(12, 60)):
+        depth = [1, 2, 3][trial % 3]
+        restart = [None, 2, 3, 4][(trial // 3) % 4]
+        dim = rng.randint(3, 8)
+        aa = call(d.AndersonAcceleration, dimension=None, depth=depth, restart=restart)
+        if isinstance(aa, Raised):
+            continue
+        a = np.array([rng.randint(1, 4) for _ in range(dim)], dtype=float)
+        hist = []
+        for k in range(rng.randint(5, 10)):
+            g = np.array([rng.gauss(0, 1) for _ in range(dim)])
+            g[-1] += (3.0 - float(a @ g)) / a[-1]
+            f = np.array([rng.gauss(0, 1) for _ in range(dim)])
+            hist.append((g.tolist(), f.tolist()))
+            o = call(aa, g.copy(), f.copy(), k)
+            ctx.count(("anderson-real", trial, k))
+            bad = isinstance(o, Raised) or not np.all(np.isfinite(o)) or abs(float(a @ np.asarray(o)) - 3.0) > 1e-7 * max(1.0, float(np.abs(o).max()))
+            if bad:
+                ctx.fail("C04:AndersonAcceleration.__call__:not-affine",
+                         f"Anderson mixing (depth {depth}, restart {restart}) does not keep a linear constraint a.x = 3 shared by all images: "
+                         f"call {k} returns {o!r}"[:400], {"kind": "anderson", "depth": depth, "restart": restart, "a": a.tolist(), "calls": hist})
+                break
 
 
 def model_selfchecks(ctx, codes):
